@@ -47,3 +47,17 @@ def newtype_items(T, width):
         {"file": EXP, "kind": "derived", "name": T, "with_parse": True,
          "contract": "ensures be_post(%d, orig_i@, r, |v: %s| v.0 as int)," % (width, T)},
     ]
+
+
+# ---- R17: the two std iterator-adapter chains, named as the shim functions of verus/shim_std.rs ------------------------
+# `(E).chunks(C).map(|x| BODY).collect()`  ->  `chunks_map_collect(&(E), C, |x: &[u8]| -> (y: T) requires .. ensures .. { BODY })`
+# `(E).iter().map(|&x| BODY).collect()`    ->  `iter_map_collect(&(E), |p: &u8| -> (y: T) ensures .. { let x = *p; BODY })`
+# receiver, chunk size and closure BODY are carried over verbatim (an edited body reaches the verifier and fails the
+# closure's postcondition; an edited chunk size fails the caller's postcondition); the closure contract is the element
+# decode the property states: the big-endian u16 of the two bytes / the byte itself
+def r17_chunks(T):
+    return (r"\(([^()\n]*)\)\s*\.chunks\(([^()]*)\)\s*\.map\(\|(\w+)\| (.*?)\)\s*\.collect\(\)",
+            r"chunks_map_collect(&(\1), \2, |\3: &[u8]| -> (y: %s) requires \3@.len() == 2 ensures y.0 as int == be16s(\3@, 0) { proof { lemma_shl8_or(\3@[0], \3@[1]); } \4 })" % T)
+def r17_iter(T):
+    return (r"\(([^()\n]*)\)\s*\.iter\(\)\s*\.map\(\|&(\w+)\| (.*?)\)\s*\.collect\(\)",
+            r"iter_map_collect(&(\1), |\2_ref: &u8| -> (y: %s) ensures y.0 == *\2_ref { let \2 = *\2_ref; \3 })" % T)
